@@ -128,7 +128,7 @@ func genC10(r *Rng, tier string) *World {
 	front := Pick(r, []string{"map", "map", "zjson", "zhttp_json", "zhttp_form", "zhttp_query"})
 	flat := front == "zhttp_form" || front == "zhttp_query"
 	if flat {
-		c.MaxDepth = 1
+		c.MaxDepth = 2 // one level of scalars and slices of scalars (filtered below)
 		c.without("ptr", "time")
 	}
 	var root *Node
@@ -137,6 +137,10 @@ func genC10(r *Rng, tier string) *World {
 		if root.Kind == "struct" || !(front != "map") || tries > 20 {
 			break
 		}
+	}
+	if !flat && r.P(0.1) {
+		root = DeepChain(r, &c, 5+r.Intn(3))
+		c.MaxElems = 2
 	}
 	if root.Kind != "struct" {
 		front = "map"
